@@ -123,6 +123,14 @@ def build_harness(name, sources, extra_defs="", cflags="", libs=""):
 # ---------------------------------------------------------------- TLC
 def workdir(tag):
     d = os.path.join(BUILD, "run", "%s-%d" % (tag, os.getpid()))
+    # reap what killed runs (timeout, OOM) left behind: directories whose owning process is gone
+    for old in glob.glob(os.path.join(BUILD, "run", "*-*")):
+        try:
+            pid = int(old.rsplit("-", 1)[1])
+        except ValueError:
+            continue
+        if pid != os.getpid() and not os.path.exists("/proc/%d" % pid) and not os.environ.get("VERIF_KEEP"):
+            shutil.rmtree(old, ignore_errors=True)
     shutil.rmtree(d, ignore_errors=True)
     os.makedirs(d)
     return d
